@@ -204,6 +204,12 @@ func gobEncodeItem(it Item) ([]byte, error) {
 				return err
 			})
 		}
+	} else if IsLink(it) {
+		err = OnLink(it, func(l *Link) error {
+			bytes, err := l.GobEncode()
+			b.Write(bytes)
+			return err
+		})
 	}
 	return b.Bytes(), err
 }
